@@ -212,6 +212,59 @@ theorem np_stream_pixels_equal {P : Type} (I : Interp R P)
     obtain ⟨h1, h2, h3⟩ := hc hmt
     rw [(centered_agree_scale1 N cfg fr k hmt h1 h2 h3).2.2.2.2.2]
 
+/-! ## which instances are enumerated (`user_instances_only`) -/
+
+theorem filterFrame_idem (uio : Bool) (l : Labelled R) :
+    filterFrame uio (filterFrame uio l) = filterFrame uio l := by
+  unfold filterFrame
+  by_cases h : (uio && !(l.filter fun p => !p.1).isEmpty) = true
+  · simp only [h, if_true, List.filter_filter, Bool.and_self]
+  · simp only [h, if_false]
+    simp [h]
+
+/-- **All three frameworks enumerate the same instances of a labelled frame**, for every model type,
+with and without `user_instances_only`, wherever the predicted instances sit in the frame: the user
+instances when the flag is set and there is one, else every instance. -/
+theorem frameworks_enumerate_same_instances (mt : MT) (uio : Bool) (l : Labelled R) :
+    enumerated .np mt uio l = enumerated .mem mt uio l ∧
+    enumerated .stream mt uio l = enumerated .mem mt uio l ∧
+    enumerated .mem mt uio l = (filterFrame uio l).map (·.2) := by
+  cases mt <;> simp [enumerated, filterFrame_idem]
+
+/-- hence every statement about `sampleOf` on the frame the in-memory dataset sees is a statement about
+the three frameworks on the raw labelled frame -/
+theorem sampleOfRaw_eq (N : Num R) (fw : FW) (cfg : Cfg R) (uio : Bool) (rf : RawFrame R) (k : Nat) :
+    sampleOfRaw N fw cfg uio rf k = sampleOf N fw cfg (rf.seenBy .mem cfg.mt uio) k := by
+  have h := frameworks_enumerate_same_instances cfg.mt uio rf.labelled
+  cases fw <;> simp [sampleOfRaw, RawFrame.seenBy, h.1, h.2.1]
+
+/-- a predicted instance in front of a user instance is dropped; a frame with predicted instances only
+is used as it is -/
+example : filterFrame true [(true, [some ((1 : Rat), 2)]), (false, [some (3, 4)])] = [(false, [some (3, 4)])] ∧
+    filterFrame true [(true, [some ((1 : Rat), 2)])] = [(true, [some (1, 2)])] ∧
+    filterFrame false [(true, [some ((1 : Rat), 2)]), (false, [some (3, 4)])]
+      = [(true, [some (1, 2)]), (false, [some (3, 4)])] := by
+  decide +kernel
+
+/-! ## the `.npz` chunk directory -/
+
+/-- **A dataset built with `use_existing_chunks = False` serves its own samples whatever the chunk
+directory held before** (trivial in the model: this is the obligation the correspondence checks by
+building a second, different dataset on a directory an earlier one has filled). -/
+theorem np_chunks_rewrite_independent_of_directory_state (N : Num R) (cfg : Cfg R)
+    (items : List (Frame R × Nat)) (d d' : List (Sample R)) :
+    (npDataset N false d cfg items).2 = (npDataset N false d' cfg items).2 ∧
+    (npDataset N false d cfg items).2 = items.map fun it => sampleOf N .np cfg it.1 it.2 := by
+  simp [npDataset]
+
+/-- with `use_existing_chunks = True` on a directory a dataset has just filled from scratch, that
+dataset's samples are served -/
+theorem np_chunks_existing_serves_directory (N : Num R) (cfg cfg' : Cfg R)
+    (items items' : List (Frame R × Nat)) :
+    (npDataset N true (npDataset N false [] cfg items).1 cfg' items').2
+      = items.map fun it => sampleOf N .np cfg it.1 it.2 := by
+  simp [npDataset]
+
 /-! ## number of samples per frame -/
 
 /-- a frame with at least one non-empty instance yields the same number of samples everywhere -/
